@@ -11,14 +11,26 @@ open Jqawk
 variable (prog : Program)
 
 /-- `if`: the condition is evaluated once, then exactly one branch (or nothing) -/
-theorem if_spec (n : Nat) (c : Expr) (body : Stmt) (els : Option Stmt) :
-    evalStmt prog (n + 1) (.if_ c body els) = (do
-      let cell ← evalExpr prog n c
-      if (← readCell cell).truthy then evalStmt prog n body
-      else match els with
-        | some eb => evalStmt prog n eb
-        | none => pure ()) := by
-  unfold evalStmt; rfl
+theorem if_true (n : Nat) (c : Expr) (body : Stmt) (els : Option Stmt) (s s1 : St) (cell : CellId)
+    (hc : evalExpr prog n c s = .ok cell s1) (ht : (s1.heap.get cell).truthy = true) :
+    evalStmt prog (n + 1) (.if_ c body els) s = evalStmt prog n body s1 := by
+  cases els <;> simp [evalStmt, bind, EM.bind, hc, readCell, ht]
+
+theorem if_false_else (n : Nat) (c : Expr) (body eb : Stmt) (s s1 : St) (cell : CellId)
+    (hc : evalExpr prog n c s = .ok cell s1) (ht : (s1.heap.get cell).truthy = false) :
+    evalStmt prog (n + 1) (.if_ c body (some eb)) s = evalStmt prog n eb s1 := by
+  simp [evalStmt, bind, EM.bind, hc, readCell, ht]
+
+theorem if_false_none (n : Nat) (c : Expr) (body : Stmt) (s s1 : St) (cell : CellId)
+    (hc : evalExpr prog n c s = .ok cell s1) (ht : (s1.heap.get cell).truthy = false) :
+    evalStmt prog (n + 1) (.if_ c body none) s = .ok () s1 := by
+  simp [evalStmt, bind, EM.bind, hc, readCell, ht, pure, EM.pure]
+
+/-- an error or signal in the condition is the result of the `if` -/
+theorem if_cond_error (n : Nat) (c : Expr) (body : Stmt) (els : Option Stmt) (s s1 : St) (e : Err)
+    (hc : evalExpr prog n c s = .err e s1) :
+    evalStmt prog (n + 1) (.if_ c body els) s = .err e s1 := by
+  cases els <;> simp [evalStmt, bind, EM.bind, hc]
 
 /-- a block runs its statements first to last; the first one that does not complete ends it -/
 theorem block_spec (n : Nat) (st : Stmt) (rest : List Stmt) :
@@ -83,25 +95,23 @@ theorem loopIter_propagates (body k : EM Unit) (s s1 : St) (e : Err)
 theorem forIn_done (n : Nat) (loc : CellId) (il : Option CellId) (body : Stmt) :
     forInLoop prog (n + 1) loc il body [] = pure () := by rw [forInLoop]
 
-/-- one step: bind the index/value variables for the first remaining item, run the body, then
-    (unless it broke out or failed) continue with the REST of the items — so every item is
-    visited at most once and in list order -/
-theorem forIn_step (n : Nat) (loc : CellId) (il : Option CellId) (body : Stmt)
-    (iv : Option Val) (item : CellId ⊕ (Val × Option CellId))
-    (rest : List (Option Val × (CellId ⊕ (Val × Option CellId)))) :
-    forInLoop prog (n + 1) loc il body ((iv, item) :: rest) = (do
-      match il with
-      | none => pure ()
-      | some ic =>
-        match iv, item with
-        | some v, _ => writeCell ic v
-        | none, .inr (_, some mc) => writeCell ic (← readCell mc)
-        | none, _ => pure ()
-      match item with
-      | .inl c => writeCell loc (← readCell c)
-      | .inr (v, _) => writeCell loc v
-      loopIter (evalStmt prog n body) (forInLoop prog n loc il body rest)) := by
-  unfold forInLoop; rfl
+/-- one step over an array: the loop variable receives a raw copy of the element's value (and
+    the index variable, if any, the position), the body runs, then (unless it broke out or
+    failed) the loop continues with the REST of the items — every element is visited at most
+    once, in index order -/
+theorem forIn_step_array (n : Nat) (loc : CellId) (body : Stmt) (iv : Val) (c : CellId)
+    (rest : List (Option Val × (CellId ⊕ (Val × Option CellId)))) (s : St) :
+    forInLoop prog (n + 1) loc none body ((some iv, .inl c) :: rest) s =
+      loopIter (evalStmt prog n body) (forInLoop prog n loc none body rest)
+        { s with heap := s.heap.set loc (s.heap.get c) } := by
+  simp [forInLoop, bind, EM.bind, readCell, writeCell]
+
+theorem forIn_step_array_index (n : Nat) (loc ic : CellId) (body : Stmt) (iv : Val) (c : CellId)
+    (rest : List (Option Val × (CellId ⊕ (Val × Option CellId)))) (s : St) :
+    forInLoop prog (n + 1) loc (some ic) body ((some iv, .inl c) :: rest) s =
+      loopIter (evalStmt prog n body) (forInLoop prog n loc (some ic) body rest)
+        { s with heap := (s.heap.set ic iv).set loc ((s.heap.set ic iv).get c) } := by
+  simp [forInLoop, bind, EM.bind, readCell, writeCell]
 
 -- (objects are iterated over `sortByKey` of their members: sortedness and independence of the
 -- insertion order are theorems of C10)
